@@ -169,7 +169,7 @@ def run(ctx, res):
     res.floor("builders", len(builders), 18)
     missing = [n for n in builders if n not in RULES]
     for n in missing:
-        res.ob(False, "anchor", n, "builder has a row in the limits table")
+        res.extra_type(n, "builder has a row in the limits table", RULES.keys(), builders.keys())
     n_err = n_ok = 0
     per = {}
     all_err_variants = {}
@@ -273,7 +273,7 @@ def run(ctx, res):
         nm = adt.split("::")[-1]
         pub = nm.replace("Builder", "")
         if pub not in FCI:
-            res.ob(False, "anchor", nm, "FCI builder has a row in the RFC FCI table")
+            res.extra_type(nm, "FCI builder has a row in the RFC FCI table", FCI.keys(), [a.split("::")[-1].replace("Builder", "") for a in D.impls_of(FCI_BUILDER)])
             continue
         kind, fmt = FCI[pub]
         I = Interp(F)
